@@ -10,6 +10,7 @@ Definition short_lit (m : shortfn) : string := match m with ShAvg => "avg"%strin
 Definition canon_fn (func_name : string) : string := (if String.eqb func_name "mean"%string then "avg"%string else func_name).
 Definition name_fmt (func_name name : string) : string := (sapp func_name (sapp "("%string (sapp (if String.eqb name "*"%string then "1"%string else name) (sapp ")"%string ""%string)))).
 Definition cube_having : bool := true.
+Definition gid_guard (is_gid old_empty : bool) : bool := is_gid.
 Definition fmt_lowers_fn : bool := true.
 Definition through_sanitize : bool := true.
 Definition sanitize_on_duckdb : bool := false.
@@ -22,6 +23,6 @@ Definition cube_idx (n : nat) : list nat := (rev (seq 0 (n + 1%nat)%nat)).
 Definition k_groupBy_gen : option opk := (Some GROUP_BY).
 Definition k_cube_gen : option opk := None.
 Definition k_dfagg_gen : option opk := (Some SELECT).
-Definition gen_gcfg : gcfg := mkGcfg wrap_needed_group init_wraps_group group_agg_kind k_groupBy_gen k_cube_gen k_dfagg_gen agg_select_append cube_having.
+Definition gen_gcfg : gcfg := mkGcfg wrap_needed_group init_wraps_group group_agg_kind k_groupBy_gen k_cube_gen k_dfagg_gen agg_select_append cube_having (gid_guard true false).
 Definition gen_ncfg : ncfg := mkNcfg short_lit canon_fn name_fmt through_sanitize sanitize_on_duckdb fn_class count_star count_alias dict_key_is_col.
 Definition group_cfg : cfg := mkCfg wrap_needed_group kind_of init_wraps_group order_append limit_merge.
